@@ -283,6 +283,19 @@ class Effects:
             return path
         return self.rebase(base, caller, cenv) + rest
 
+    @staticmethod
+    def _display_loop_var(sc, e: ast.AST):
+        """the elements of the display when e is the variable of `for e in (x, y, z)` (its only binding), else None"""
+        if not isinstance(e, ast.Name) or e.id in sc.params:
+            return None
+        hows = sc.defs.get(e.id, [])
+        if len(hows) != 1 or hows[0][0] != "iter":
+            return None
+        it = hows[0][1]
+        if isinstance(it, (ast.Tuple, ast.List)) and it.elts and not any(isinstance(x, ast.Starred) for x in it.elts):
+            return list(it.elts)
+        return None
+
     def _of_node(self, n: Node) -> List[Effect]:
         f = n.func
         P = self.paths(f)
@@ -307,7 +320,16 @@ class Effects:
                         break
                 ck = container_kind(self.an, rt)
                 path = P.of(fn.value)
-                if ck is not None:
+                elts = self._display_loop_var(sc, fn.value)
+                if elts is not None:
+                    # `for c in (self._a, self._b): c.clear()`: the step acts on each of the containers listed
+                    for el in elts:
+                        ck2 = container_kind(self.an, sc.ty(el))
+                        p2 = P.of(el)
+                        kind = _METHOD_EFFECT.get((ck2, fn.attr)) if ck2 is not None else None
+                        if kind is not None and p2 is not None and not (kind in ("insert", "remove", "clear", "reorder") and P.is_copy(el)):
+                            out.append(Effect(n, p2, kind, ck2, fn.attr))
+                elif ck is not None:
                     kind = _METHOD_EFFECT.get((ck, fn.attr))
                     if kind in ("insert", "remove", "clear", "reorder") and ck in ("dict", "set", "list") and P.is_copy(fn.value):
                         kind = None  # edits a private copy, not the container it was copied from
